@@ -103,6 +103,28 @@ func (d *Driver) Do(r HTTPReq) (resp HTTPResp) {
 }
 
 func (d *Driver) DoCtx(ctx context.Context, r HTTPReq) (resp HTTPResp) {
+	if sched.Active() == nil {
+		// Outside a controlled execution (sequential checks) the request is run as a one-thread controlled
+		// execution of its own: a lock that an earlier request left held makes it block, which is then "no enabled
+		// thread" - reported like a panic - instead of a hang of the checker.
+		x := sched.Run(nil, 2_000_000, nil, func() { resp = d.serve(ctx, r) })
+		switch {
+		case x.Deadlock:
+			return HTTPResp{Status: -1, Panic: "the request never completes: it waits forever at " + x.Blocked[0] + " (an earlier request left a lock held)"}
+		case x.NPanic > 0:
+			return HTTPResp{Status: -1, Panic: x.Panics[0]}
+		case x.Horizon:
+			return HTTPResp{Status: -1, Panic: "the request did not complete within 2000000 scheduling points"}
+		}
+		return resp
+	}
+	return d.serve(ctx, r)
+}
+
+func (d *Driver) serve(ctx context.Context, r HTTPReq) (resp HTTPResp) {
+	// a request boundary is a scheduling point: between two requests of one client (e.g. the initiation of an
+	// upload session and its first chunk) any other client may act
+	pt("request")
 	defer func() {
 		if p := recover(); p != nil {
 			resp = HTTPResp{Panic: fmt.Sprintf("%v\n%s", p, trimStack(debug.Stack()))}
